@@ -17,6 +17,7 @@ def run(chk):
         ("MC_Candle", "MC_Candle_validate.cfg", "validate as coded = the statement's predicate on all (o,h,l,c,v) in {NaN,-Inf,-1,0,1,2,3,+Inf}^5", ("ROW",)),
         ("MC_Candle", "MC_Candle_tr.cfg", "single-subtraction true range = three-way maximum for all (h,l,pc) in 0..8^3 with h >= l", ("TR",)),
         ("MC_Candle", "MC_Candle_add.cfg", "Candle + Candle associative on all triples of candles over {1,2}^5", ("ADD",)),
+        ("MC_Candle", "MC_Candle_seq.cfg", "Sequence<ValueType>::validate = every item finite, on all triples over {NaN,+-Inf,-1..3,+-HUGE} (HUGE+HUGE overflows) and their prefixes", ("SEQ",)),
         ("MC_Parse", "MC_Parse_canon.cfg", "canonical texts of every MA kind x boundary lengths and every source name parse back", ("ROW",)),
         ("MC_Parse", "MC_Parse_edit.cfg", "every single-character deletion/substitution/insertion of canonical texts", ("ROW",)),
         ("MC_Parse", "MC_Parse_short.cfg", "every text of length <= 4 over {s,m,a,-,2,5,+,space}", ("ROW",)),
